@@ -253,7 +253,7 @@ pub fn replay_base(out: &mut Out, v: &Vocab, e: &str, b: &Beh, pols: &[Policy], 
 
 /// Direction A at character level (spec/MCLexer.tla): one behaviour = a character string with the
 /// specification's verdict, tokens (with payload) and tree.
-pub fn replay_string(out: &mut Out, e: &str, bv: &Value, phs: &[Val], idx: u64) {
+pub fn replay_string(out: &mut Out, e: &str, bv: &Value, phs: &[Val], idx: u64) -> (String, Vec<(Val, Outcome)>) {
     use crate::render::Asg;
     use crate::vocab::{concrete, FOREIGN, WHITE_SPACE};
     let chars: Vec<String> = bv["chars"].as_array().unwrap().iter().map(|c| c.as_str().unwrap().to_string()).collect();
@@ -286,6 +286,7 @@ pub fn replay_string(out: &mut Out, e: &str, bv: &Value, phs: &[Val], idx: u64) 
     let dflt = [default_placeholder(e)];
     let phs: &[Val] = if has_ans { phs } else { &dflt };
     let ctx = json!({"chars": chars, "verdict": verdict, "rule": bv["rule"], "toks": kinds});
+    let mut outs = Vec::new();
     for ph in phs {
         let exp = match verdict {
             "accept" => Some(expected(e, &T::from_json(&bv["tree"]), &asg, ph)),
@@ -293,9 +294,11 @@ pub fn replay_string(out: &mut Out, e: &str, bv: &Value, phs: &[Val], idx: u64) 
             _ => None,   // unspecified by the properties: the call only has to return
         };
         let nontrivial = chars.len() >= 2;
-        checked_call(out, e, &text, ph, exp.as_ref(), json!({"v": verdict}), nontrivial, &ctx);
+        let o = checked_call(out, e, &text, ph, exp.as_ref(), json!({"v": verdict}), nontrivial, &ctx);
+        outs.push((ph.clone(), o));
     }
     if out.stats.samples.len() < 6 && idx % 1009 == 7 {
         out.stats.samples.push(json!({"e": e, "chars": chars, "verdict": verdict, "input": text}));
     }
+    (text, outs)
 }
